@@ -122,6 +122,10 @@ func replyOracle(c *Ctx, s *lifeSess, sigp, line string, lo, hi, f0 int, atMostO
 				fail("wrong-content", fmt.Sprintf("request %d (tag %d): implementation produced %q, wire carried %q", rid, q.tag, ans, got))
 			}
 		}
+		if f.typ == g.Rerror && ans != "" && q.typ != g.Tflush {
+			// the implementation's (first) answer to a request it was handed is never an error here
+			fail("wrong-content", fmt.Sprintf("request %d (tag %d): implementation produced %q, wire carried an Rerror (%s)", rid, q.tag, ans, replyText(f.raw)))
+		}
 	}
 	for i := f0; i < len(s.fr); i++ {
 		if !used[i] {
